@@ -79,6 +79,8 @@ hfn!(h_n_i4<I1: EchoI, I2: EchoI, I3: EchoI, I4: EchoI> marker(fn(I1, I2, I3, I4
 hfn!(h_b_i0<P: EchoP> marker(fn((P,)) -> String) args(p => P) echo(p.echo()));
 hfn!(h_b_i1<P: EchoP, I1: EchoI> marker(fn(((P,),), I1) -> String) args(p => P, i1 => I1) echo(p.echo(), i1.echo()));
 hfn!(h_b_i2<P: EchoP, I1: EchoI, I2: EchoI> marker(fn(((P,),), I1, I2) -> String) args(p => P, i1 => I1, i2 => I2) echo(p.echo(), i1.echo(), i2.echo()));
+hfn!(h_b_i3<P: EchoP, I1: EchoI, I2: EchoI, I3: EchoI> marker(fn(((P,),), I1, I2, I3) -> String) args(p => P, i1 => I1, i2 => I2, i3 => I3) echo(p.echo(), i1.echo(), i2.echo(), i3.echo()));
+hfn!(h_b_i4<P: EchoP, I1: EchoI, I2: EchoI, I3: EchoI, I4: EchoI> marker(fn(((P,),), I1, I2, I3, I4) -> String) args(p => P, i1 => I1, i2 => I2, i3 => I3, i4 => I4) echo(p.echo(), i1.echo(), i2.echo(), i3.echo(), i4.echo()));
 hfn!(h_t1_i0<P: EchoP> marker(fn(((P,),)) -> String) args((p,) => (P,)) echo(p.echo()));
 hfn!(h_t1_i1<P: EchoP, I1: EchoI> marker(fn((P,), I1) -> String) args((p,) => (P,), i1 => I1) echo(p.echo(), i1.echo()));
 hfn!(h_t1_i2<P: EchoP, I1: EchoI, I2: EchoI> marker(fn((P,), I1, I2) -> String) args((p,) => (P,), i1 => I1, i2 => I2) echo(p.echo(), i1.echo(), i2.echo()));
@@ -177,6 +179,8 @@ catalogue! {
     "bare(String)|JSON<AN>" => h_b_i1::<String, JSON<AN>>;
     "bare(i64)|?Query<AN>|?JSON<AN>" => h_b_i2::<i64, Option<Query<AN>>, Option<JSON<AN>>>;
     "bare(u8)|Auth<S>|Text<S>" => h_b_i2::<u8, th::Authorization<String>, Text<String>>;
+    "bare(u16)|?Query<AN>|Auth<S>|JSON<AN>" => h_b_i3::<u16, Option<Query<AN>>, th::Authorization<String>, JSON<AN>>;
+    "bare(isize)|Query<AN>|?Auth<S>|?MaxFwd<N>|?URLEncoded<AN>" => h_b_i4::<isize, Query<AN>, Option<th::Authorization<String>>, Option<th::MaxForwards<HNum>>, Option<URLEncoded<AN>>>;
     "tuple(u32)|Query<AN>" => h_t1_i1::<u32, Query<AN>>;
     "tuple(u32)|Query<AN>|JSON<AN>" => h_t1_i2::<u32, Query<AN>, JSON<AN>>;
     "tuple(String)|?JSON<AN>" => h_t1_i1::<String, Option<JSON<AN>>>;
